@@ -43,13 +43,13 @@ Definition spec_inherit (st : state) (s : sref) : bool :=           (* s.inherit
   match s with
   | RCls c => inherit (st_decl st) c
   | RSynth n => match nth_error (st_synth st) n with Some y => sy_inherit y | None => true end
-  | RProv _ => true
+  | _ => true
   end.
-Definition spec_declared (st : state) (s : sref) : list iface :=    (* s.declared *)
+Definition spec_declared (st : state) (s : sref) : list iface * list cls :=    (* s.declared *)
   match s with
-  | RCls c => declared (st_decl st) c
-  | RSynth n => match nth_error (st_synth st) n with Some y => sy_declared y | None => [] end
-  | RProv _ => []
+  | RCls c => (declared (st_decl st) c, dspecs (st_decl st) c)
+  | RSynth n => match nth_error (st_synth st) n with Some y => (sy_declared y, sy_dspecs y) | None => ([], []) end
+  | _ => ([], [])
   end.
 
 (* Implements.named(name, *bases): a new specification object; class attributes inherit = None
@@ -57,7 +57,7 @@ Definition spec_declared (st : state) (s : sref) : list iface :=    (* s.declare
 Definition classes_of (bases : list sref) : list cls :=
   flat_map (fun r => match r with RCls c => [c] | _ => [] end) bases.
 Definition alloc_implements (st : state) (bases : list sref) : state * sref :=
-  (mkSt (st_decl st) (st_synth st ++ [mkSynth (classes_of bases) false []]) (st_cache st) (st_regs st),
+  (mkSt (st_decl st) (st_synth st ++ [mkSynth (classes_of bases) false [] []]) (st_cache st) (st_regs st),
    RSynth (length (st_synth st))).
 
 Fixpoint update_nth {A} (l : list A) (n : nat) (f : A -> A) : list A :=
@@ -70,31 +70,38 @@ Fixpoint update_nth {A} (l : list A) (n : nat) (f : A -> A) : list A :=
 Definition set_spec_inherit (st : state) (s : sref) (b : bool) : state :=       (* s.inherit = ... *)
   match s with
   | RSynth n => mkSt (st_decl st)
-                     (update_nth (st_synth st) n (fun y => mkSynth (sy_bases y) b (sy_declared y)))
+                     (update_nth (st_synth st) n (fun y => mkSynth (sy_bases y) b (sy_declared y) (sy_dspecs y)))
                      (st_cache st) (st_regs st)
   | _ => st
   end.
-Definition set_spec_declared (st : state) (s : sref) (d : list iface) : state := (* s.declared = ... *)
+Definition set_spec_declared (st : state) (s : sref) (d : list iface * list cls) : state := (* s.declared = ... *)
   match s with
   | RSynth n => mkSt (st_decl st)
-                     (update_nth (st_synth st) n (fun y => mkSynth (sy_bases y) (sy_inherit y) d))
+                     (update_nth (st_synth st) n (fun y => mkSynth (sy_bases y) (sy_inherit y) (fst d) (snd d)))
                      (st_cache st) (st_regs st)
   | _ => st
   end.
 
 (* ---- arguments of providedBy / implementedBy *)
-Definition is_super_arg (a : arg) : bool := match a with ASuper _ _ => true | AObj _ => false end.
+(* proxies bound to an instance or to a class take the translated path; an unbound proxy
+   (__self_class__ None) leaves it through an AttributeError into the untranslated remainder *)
+Definition is_super_arg (a : arg) : bool :=
+  match a with ASuper _ _ | ASuperC _ _ => true | AObj _ | AUnbound _ => false end.
 Definition psuper_of (E : env) (a : arg) : psuper :=
   match a with
   | ASuper C j => mkPS C (obj_cls E j) j
+  | ASuperC C T => mkPS C T (cls_ident T)
   | AObj j => mkPS (obj_cls E j) (obj_cls E j) j
+  | AUnbound C => mkPS C C none_ident
   end.
 (* the parts of implementedBy / providedBy after the ``super`` branch (not translated) *)
-Definition implementedBy_rest (E : env) (st : state) (a : arg) : state * option sref := (st, None).
+Definition implementedBy_rest (E : env) (st : state) (a : arg) : state * option sref :=
+  match a with AUnbound _ => (st, Some REmpty) | _ => (st, None) end.
 Definition providedBy_rest (E : env) (st : state) (a : arg) : state * option sref :=
   match a with
   | AObj j => (st, Some (provided_by_instance E j))
-  | ASuper _ _ => (st, None)
+  | AUnbound _ => (st, Some REmpty)
+  | _ => (st, None)
   end.
 
 (* ---- adapter.py: objects handed to adapter_hook / queryMultiAdapter *)
